@@ -24,3 +24,7 @@ Definition h10_nolength_clears_stored_keepalive : bool := false.
 
 (* feed_data: empty_body = code in EMPTY_BODY_STATUS_CODES or bool(code and method and method in EMPTY_BODY_METHODS) *)
 Definition response_empty_body_rule_is_status_or_head : bool := true.
+
+(* ClientRequest._write_bytes: writer.write_eof() runs only in the `else:` of the try around the body write,
+   i.e. not after a handled OSError / Exception of the body source *)
+Definition write_eof_only_after_success : bool := true.
